@@ -70,7 +70,12 @@ pub fn new(parameters: &RawParameters, ctx: &dyn Context) -> Result<Op, Error> {
         steps.push(Op::op(step_parameters, ctx)?);
     }
 
-    let params = ParsedParameters::new(parameters, &GAMUT)?;
+    // The pipeline's own parameters are given by its invocation only (i.e. through
+    // the globals): the text of its steps must not be tokenized as if it were the
+    // parameters of the pipeline itself. Otherwise the modifiers of a step (e.g. a
+    // trailing `omit_fwd`) leak into the enclosing pipeline
+    let own = parameters.next("pipeline");
+    let params = ParsedParameters::new(&own, &GAMUT)?;
     let fwd = InnerOp(pipeline_fwd);
     let inv = InnerOp(pipeline_inv);
     let descriptor = OpDescriptor::new(definition, fwd, Some(inv));
